@@ -216,7 +216,10 @@ Fixpoint enum (fuel : nat) (tg : list index) (mid mg : option nat) (cnt : N)
 
 Definition enumerate_schemes (tg : list index) (mid mg : option nat) (cnt : N)
   (objs : list obj) : list scheme * N :=
-  enum (length objs) tg mid mg cnt (map fst objs) (map snd objs).
+  (* fuel: a step either lowers the number of objects or (group of a single
+     object carrying a repeated index) replaces a base object by a result
+     with pairwise distinct indices, which never forms such a group again *)
+  enum (2 * length objs + 1) tg mid mg cnt (map fst objs) (map snd objs).
 
 (* ------------------------------------------------------------------ *)
 (* ranking in optimize_contractions *)
